@@ -279,6 +279,45 @@ def oracle_paps(wl, d, ref='cogid', missing=-1):
     return None
 
 
+def oracle_paps_modified(rng, d, missing=-1):
+    """cognate ids with a sign (a borrowing marked -k next to inherited k) read through modify_ref=abs: the set |k| has the reflexes
+    of both, whatever the order of the rows"""
+    from lingpy import Wordlist
+    hdr = d[0]
+    ci, li, gi = hdr.index('concept'), hdr.index('doculect'), hdr.index('cogid')
+    d2 = {0: list(hdr)}
+    for k in d:
+        if k != 0:
+            row = list(d[k])
+            if isinstance(row[gi], int) and row[gi] > 0 and rng.random() < 0.4:
+                row[gi] = -row[gi]
+            d2[k] = row
+    wl = Wordlist(d2)
+    ids = [k for k in d2 if k != 0]
+    sets = {}
+    for k in ids:
+        sets.setdefault(abs(d2[k][gi]), []).append(k)
+    ety = wl.get_etymdict(ref='cogid', modify_ref=abs)
+    if sorted(ety) != sorted(sets):
+        return 'etymdict(modify_ref=abs): keys %r, expected %r' % (sorted(ety), sorted(sets))
+    for g, slots in ety.items():
+        if sorted(k for s in slots for k in (s or [])) != sorted(sets[g]):
+            return 'etymdict(modify_ref=abs): cognate set %r lists the rows %r, the rows with |id| = %r are %r' % (g, sorted(k for s in slots for k in (s or [])), g, sorted(sets[g]))
+    paps = wl.get_paps(ref='cogid', missing=missing, modify_ref=abs)
+    for g, members in sets.items():
+        cs = set(d2[k][ci] for k in members)
+        if len(cs) != 1:
+            continue
+        c = list(cs)[0]
+        for j, l in enumerate(wl.cols):
+            present = any(str(d2[k][li]) == l for k in members)
+            has_word = any(str(d2[k][li]) == l and d2[k][ci] == c for k in ids)
+            exp = 1 if present else (0 if has_word else missing)
+            if paps[g][j] != exp:
+                return 'get_paps(modify_ref=abs): pattern of cognate set %r at language %r is %r, expected %r' % (g, l, paps[g][j], exp)
+    return None
+
+
 def run_views(chk, which):
     """which in {'C12', 'C17'}"""
     from lingpy.basic.ops import renumber
@@ -352,7 +391,7 @@ def run_views(chk, which):
                                 if (mp[a] == mp[b]) != (nums[a] == nums[b]) or (mp[a] == 0) != (nums[a] == 0):
                                     bad.append(('renumber', vals, nums, mp))
                 else:
-                    e = oracle_dst(wl, d) or oracle_paps(wl, d, missing=rng.choice([-1, 0]))
+                    e = oracle_dst(wl, d) or oracle_paps(wl, d, missing=rng.choice([-1, 0])) or oracle_paps_modified(rng, d, missing=rng.choice([-1, 0]))
             except Exception as ex:  # noqa
                 e = 'accessor raised %s: %s' % (type(ex).__name__, str(ex)[:120])
             if e:
@@ -365,6 +404,19 @@ def run_views(chk, which):
             inv_c = {v: k for k, v in cmap.items()}
             inv_l = {v: k for k, v in lmap.items()}
             if which == 'C12':
+                # languages and concepts = the distinct values in case-insensitive alphabetical order: Lean distinctSorted on the values
+                # in row order (code points of the name and of its lower-cased form) == wl.cols / wl.rows (theorem C12_names)
+                def cps(x):
+                    return ','.join(str(ord(ch)) for ch in x)
+                for attr, colname in (('cols', 'doculect'), ('rows', 'concept')):
+                    ix = d[0].index(colname)
+                    vals = [str(d[k][ix]) for k in d if k != 0]
+                    if any(not v or ' ' in v for v in vals):
+                        continue
+                    o = drv.ask('names|' + ' '.join('%s:%s' % (cps(v.lower()), cps(v)) for v in vals))
+                    real_names = ' '.join(cps(x) for x in getattr(wl, attr))
+                    if o != 'S ' + real_names:
+                        bad.append(('names:' + attr, list(getattr(wl, attr)), o[:200]))
                 real_arr = {str(cmap[c]): [[int(x) for x in wl._array[p]] for p in wl._idx[c]] for c in wl._dict}
                 if real_arr != arr or [str(cmap[c]) for c in wl._dict] != list(arr):
                     bad.append(('array', real_arr, arr))
